@@ -1,11 +1,12 @@
-\* C33 leg A thorough: 3 blocks, <= 3 phases per iteration, 2 iterations, <= 4 mutations, <= 2 failing reads anywhere;
-\* generated cases: the j-th sync read of each kind fails, j <= 40
+\* C33 leg A thorough: 4 blocks, <= 3 phases per iteration, 2 iterations, <= 4 mutations, <= 2 failing reads anywhere;
+\* generated cases: the j-th sync read of each kind (call or body; body at byte 0 / middle / last) fails, j <= 40
 SPECIFICATION Spec
-CONSTANTS NBlocks = 3
+CONSTANTS NBlocks = 4
           MaxPhases = 3
           MaxIters = 2
           MaxMuts = 4
           MaxFaults = 2
+          CaseBodyJ = 12
           CaseJ = 40
 INVARIANTS C33_NoMutationOnIncompleteView ActMeansCleanSync
 CHECK_DEADLOCK FALSE
